@@ -18,7 +18,7 @@ PROPERTY = "C12"
 META = dict(
     explanation="Displacements of all tracked points are symbols inside a box; the nearest-neighbour search with growing radius forks on "
                 "every distance comparison and the explorer follows every feasible outcome.",
-    bounds=dict(tissues="T3 (4 tracked points; K3-n0 thorough)", frames="2 (3 thorough)",
+    bounds=dict(tissues="T3 (4 tracked points; K3-n0 thorough)", frames="2; one 3-frame series whose last frame repeats the positions of the second under another numbering",
                 displacement="|dx|,|dy| <= 0.3% of the extent (inside the first search radius); thorough adds 0.55% (second radius)",
                 renumbering="identity, reversal, gaps, derangement", options="cm off, partial initial_guess"),
     outside=["cm=True (centre-of-mass shift with 3-decimal rounding: exploration did not finish within the budget)",
@@ -103,13 +103,13 @@ def jobs(tier):
         for perm in (("rev", "der") if quick else ("id", "rev", "gap", "der")):
             for guess in (None, "P1") if topo == "T3" else (None,):
                 js.append(Job(f"small-motion-{topo}-{perm}-guess={guess}", "c12:track",
-                              dict(topo=topo, perm=perm, box=0.003, cm=False, guess_pn=guess, nframes=2 if (quick or topo != "T3") else 3),
+                              dict(topo=topo, perm=perm, box=0.003, cm=False, guess_pn=guess, nframes=2),
                               budget_s=2400, max_paths=2000, weight=3, opts=dict(prune_minmax=True)))
     # a user pairing that contradicts proximity: its target must still be taken (injectivity), and a three-frame series with
     # a different numbering in every frame (composition order of the backward lookup)
     js.append(Job("contradicting-guess-T3-rev", "c12:track", dict(topo="T3", perm="rev", box=0.003, cm=False, guess_pn="P1", guess_target="P2"),
                   budget_s=2400, max_paths=2000, weight=3, opts=dict(prune_minmax=True)))
-    if quick:
+    if True:
         js.append(Job("three-frames-T3-der-guess=P1", "c12:track", dict(topo="T3", perm="der", box=0.003, cm=False, guess_pn="P1", nframes=3, still_last=True),
                       budget_s=2400, max_paths=4000, weight=6, opts=dict(prune_minmax=True)))
     if not quick:
